@@ -48,6 +48,10 @@ pub fn run(rng: &mut Rng, n: usize, out: &mut Out, which: &str) {
                 case += 1;
                 out.op(&format!("case {}", case), "ok");
                 fresh_keys(&mut st, out, "s.new");
+                for _ in 0..2 {
+                    let pb = match rng.below(3) { 0 => g.ep_family(rng), 1 => g.pin_family(rng), _ => Some(g.valid_position(rng, out)) };
+                    if let Some(pb) = pb { if crate::refchess::valid(&pb) { out.run(&mut st, &format!("legal {}", board_text(&pb))); out.count("position_intake_move_sets"); } }
+                }
                 let bt = board_text(&b);
                 if m1 {
                     out.count("positions_with_mate_in_one");
@@ -127,6 +131,30 @@ pub fn run(rng: &mut Rng, n: usize, out: &mut Out, which: &str) {
                             if f2.len() >= 2 { out.run(&mut st, &format!("s.judge {} legal {}", board_text(&p2), f2[1])); out.count("twin_positions_judged"); }
                         }
                     } else { out.count("twin_case_not_found"); }
+                }
+                // a whole engine session around the castling rights: kings and rooks at home with rights, a few plies in which rooks are
+                // captured on their home squares, leave and return; then the engine's own answer, judged by the rules' position
+                if rng.chance(1, 2) {
+                    if let Some((start, moves)) = castling_session(&g, rng) {
+                        fresh_keys(&mut st, out, "eng.new");
+                        let mut line = format!("position fen {}", fen_of(&start));
+                        if !moves.is_empty() { line += " moves"; for m in &moves { line += " "; line += &uci_text(m); } }
+                        out.run(&mut st, &format!("eng.pos {} {} | {}", board_text(&start), moves.iter().map(mv_text).collect::<Vec<_>>().join(" "), line));
+                        let mut cur = start;
+                        for m in &moves { cur.make_move(m); }
+                        for d in 1..=3u8 {
+                            if crate::csearch::nodes_capped(&cur, d, 20000) >= 20000 { break; }
+                            let a = out.run(&mut st, &format!("eng.go {}", d));
+                            let f: Vec<&str> = a.split_whitespace().collect();
+                            if f.len() >= 2 { out.run(&mut st, &format!("eng.judgelegal {}", f[1])); out.count("engine_session_answers_judged"); }
+                        }
+                    }
+                }
+                // position intake: the moves generated for a position handed over as FEN text (en passant squares on every file,
+                // pins, castling rights) — the answer of a search can only be as good as that
+                for _ in 0..2 {
+                    let pb = match rng.below(3) { 0 => g.ep_family(rng), 1 => g.pin_family(rng), _ => Some(g.valid_position(rng, out)) };
+                    if let Some(pb) = pb { if crate::refchess::valid(&pb) { out.run(&mut st, &format!("legal {}", board_text(&pb))); out.count("position_intake_move_sets"); } }
                 }
                 // positions without legal moves must answer "no move"
                 if rng.chance(1, 3) {
@@ -369,6 +397,36 @@ fn twin_case(g: &Gen, rng: &mut Rng) -> Option<(Board, Board, u8)> {
         if let Some(t) = twin { if crate::refchess::valid(&t) { return Some((b, t, d)); } }
     }
     None
+}
+
+/// kings and rooks at home with all rights (plus a few men); 2-8 plies preferring captures on the corner squares, rook and
+/// king moves — the sessions in which castling rights are lost in every possible way
+fn castling_session(g: &Gen, rng: &mut Rng) -> Option<(Board, Vec<Move>)> {
+    use crate::pieces::{Color, Piece};
+    let mut occ = [None::<(Color, Piece)>; 64];
+    occ[4] = Some((Color::White, Piece::King)); occ[0] = Some((Color::White, Piece::Rook)); occ[7] = Some((Color::White, Piece::Rook));
+    occ[60] = Some((Color::Black, Piece::King)); occ[56] = Some((Color::Black, Piece::Rook)); occ[63] = Some((Color::Black, Piece::Rook));
+    for _ in 0..rng.below(5) {
+        let sq = 8 + rng.below(48) as usize;
+        if occ[sq].is_none() { occ[sq] = Some((if rng.chance(1, 2) { Color::White } else { Color::Black }, *rng.pick(&[Piece::Bishop, Piece::Knight, Piece::Pawn, Piece::Bishop, Piece::Queen]))); }
+    }
+    let mut pcs = [0u64; 6];
+    let (mut w, mut bl) = (0u64, 0u64);
+    for sq in 0..64 { if let Some((c, p)) = occ[sq] { pcs[p.index()] |= 1 << sq; if c == Color::White { w |= 1 << sq } else { bl |= 1 << sq } } }
+    let side = if rng.chance(1, 2) { Color::White } else { Color::Black };
+    let start = board_from_raw(pcs, w, bl, side, 15, None, 0, 1)?;
+    if !crate::refchess::valid(&start) { return None; }
+    let mut b = start;
+    let mut ms: Vec<Move> = Vec::new();
+    for _ in 0..(2 + rng.below(7)) {
+        let all = g.mg.generate_moves(&b);
+        if all.is_empty() { break; }
+        let corner: Vec<&Move> = all.iter().filter(|x| [0u8, 7, 56, 63].contains(&x.to) && x.move_type != MoveType::Quiet).collect();
+        let heavy: Vec<&Move> = all.iter().filter(|x| x.piece_type == Piece::Rook || x.piece_type == Piece::King).collect();
+        let m = if !corner.is_empty() && rng.chance(3, 4) { **rng.pick(&corner) } else if !heavy.is_empty() && rng.chance(1, 2) { **rng.pick(&heavy) } else { *rng.pick(&all) };
+        b.make_move(&m); ms.push(m);
+    }
+    Some((start, ms))
 }
 
 fn find_move(g: &Gen, b: &Board, from: u8, to: u8) -> Option<Move> {
